@@ -1,4 +1,5 @@
 mod c01;
+mod c02;
 mod c03;
 mod c04;
 mod c05;
@@ -15,6 +16,7 @@ mod c15;
 mod c16;
 mod c17;
 mod expand;
+mod cppdrv;
 mod e2e;
 mod extras;
 mod extract;
@@ -48,6 +50,7 @@ fn main() {
             }
         }
         "C01" => c01::main(&args[1..]),
+        "C02" => c02::main(&args[1..]),
         "C03" => c03::main(&args[1..]),
         "C04" => c04::main(&args[1..]),
         "C05" => c05::main(&args[1..]),
